@@ -1,5 +1,6 @@
 //! vacct: account-level monitors (C01 C02 C12 C13 C16 C18 C19 C20, C03 local part).
 mod c01;
+mod c02;
 mod common;
 
 #[global_allocator]
@@ -12,6 +13,7 @@ fn main() {
     let rt = tokio::runtime::Builder::new_multi_thread().worker_threads(2).enable_all().build().unwrap();
     match args.check.as_str() {
         "c01" => rt.block_on(c01::run(&args, &mut rep)),
+        "c02" => rt.block_on(c02::run(&args, &mut rep)),
         other => {
             eprintln!("vacct: unknown check {}", other);
             std::process::exit(2);
